@@ -16,7 +16,7 @@ ID = "C16"
 LEVEL = "exploration"
 RULE = (
     "Generated units x in-range values (zero/ones/min/max incl. negative extremes and 64-bit values >= 2^63, random; one-hot "
-    "basis for messages <= 128 bits) x build drawn from {gcc -O0..-O3, clang -O2}. Python to_json() and to_dict(), and the "
+    "basis for messages <= 128 bits) x build drawn from {gcc -O0..-O3, clang -O2} x c.struct_packing_alignment {unset, 1, 2, 4, 8}. Python to_json() and to_dict(), and the "
     "generated C Json<Msg>() text (written into a fenced buffer), are parsed with json.loads (object_pairs_hook keeps key "
     "order and duplicate keys visible) and compared with the value tree computed from the model: keys = schema field names in "
     "field-number order, ints as numbers, bools as true/false, arrays and byte arrays as lists, nested messages as objects, "
@@ -100,7 +100,7 @@ def value_labels(m: Message, v: Any) -> List[str]:
 
 
 def strategy(tier: str) -> Any:
-    return cases.sv_cases(S.Features(), nrand=2, config=st.fixed_dictionaries({"cc_opt": st.sampled_from(CONFIGS), "build": cexec.build_variation(), "single_tu": st.booleans()}))
+    return cases.sv_cases(S.Features(), nrand=2, config=st.fixed_dictionaries({"cc_opt": st.sampled_from(CONFIGS), "build": cexec.build_variation(), "single_tu": st.booleans(), "align": st.sampled_from([0, 0, 0, 1, 2, 4, 8])}))
 
 
 def run_case(case: cases.SVCase, stats: Stats) -> None:
@@ -108,6 +108,13 @@ def run_case(case: cases.SVCase, stats: Stats) -> None:
     cfg = cexec.apply_variation(cexec.CConfig(cc=cc, opt=opt, single_tu=case.config.get("single_tu", False)), case.config.get("build", {}))
     if cfg.pre_includes or cfg.extra or cfg.lib_std:
         stats.count("cfg:build_variation")
+    align = case.config.get("align", 0)
+    if align:
+        # documented option: packed structs with the given alignment (members then sit at addresses their type is not aligned for)
+        for f in case.unit.files:
+            if not any(o[0] == "c.struct_packing_alignment" for o in f.options):
+                f.options.append(("c.struct_packing_alignment", align))
+        stats.count("cfg:packed")
     with gen.Compiled(case.unit, case.style) as cu:
         try:
             cdir = cu.render_all("c")
